@@ -1421,8 +1421,10 @@ class SX:
             return [(s_, Sv(text)) for s_, text in cur]
         if isinstance(n, ast.JoinedStr):
             return [(st, Unk('<f-string>'))]
-        if isinstance(n, ast.Dict) and self.eval_comprehensions and n.keys and all(
-                isinstance(k, ast.Constant) and isinstance(k.value, str) for k in n.keys):
+        if isinstance(n, ast.Dict) and n.keys and all(isinstance(k, ast.Constant) and isinstance(k.value, str) for k in n.keys) and (
+                self.eval_comprehensions or not any(isinstance(v, (ast.List, ast.Dict, ast.Set, ast.ListComp, ast.DictComp, ast.SetComp,
+                                                                    ast.Lambda, ast.Constant)) for v in n.values)):
+            # a literal with constant keys (always, when it holds computed values only: an argument bundle, a state record)
             res = []
             for r in self.eval_list(list(n.values), st, frame):
                 if isinstance(r, Outcome):
@@ -2590,6 +2592,11 @@ class SX:
                     return Bv((other.name == x.name) != neg)
                 if isinstance(other, (Q, N, Sv, Tv, NoneV, Bv, Cv, Dv, Uv)) or (isinstance(other, Ov) and other.cls not in (None, 'object')):
                     return Bv(neg)          # a value of another type is never the sentinel object
+            if isinstance(r, Bv) and isinstance(l, Bsym) and isinstance(n, ast.Compare) and len(n.ops) == 1 \
+                    and isinstance(n.left, ast.Call) and isinstance(n.left.func, ast.Name) and n.left.func.id == 'bool':
+                # the result of bool(...) is one of the two singletons (a comparison's result need not be: numpy.bool_)
+                g_ = l.guard if r.b else l.guard.negate()
+                return Bsym(g_.negate() if neg else g_)
             if isinstance(r, Bv) and isinstance(l, (Bv, NoneV)):
                 # `flag is False` on a concrete flag: True / False / None are singletons
                 same = isinstance(l, Bv) and l.b is r.b
